@@ -137,7 +137,7 @@ func TestVerifC20Info(t *testing.T) {
 		}
 		return ln.Close()
 	}))
-	for i, m := range []os.FileMode{0o755 | os.ModeSetuid, 0o750 | os.ModeSetgid, 0o777 | os.ModeSticky, 0o7777 &^ 0o7000 | os.ModeSetuid | os.ModeSetgid | os.ModeSticky} {
+	for i, m := range []os.FileMode{0o755 | os.ModeSetuid, 0o750 | os.ModeSetgid, 0o777 | os.ModeSticky, 0o7777&^0o7000 | os.ModeSetuid | os.ModeSetgid | os.ModeSticky} {
 		m := m
 		names = append(names, mk("bits"+string(rune('a'+i)), func(p string) error {
 			if err := os.WriteFile(p, nil, 0o600); err != nil {
